@@ -144,6 +144,15 @@ class Nodes(_Nodes):
             # add tester
             init, trans = _make_tester_for_previous(
                 var_prev, var, context, strong)
+            # the weak and the strong "previous" of the same variable
+            # differ in their initial condition, so they cannot share
+            # a tester variable
+            other = testers.get(var_prev)
+            if other is not None and other['init'] != init:
+                kind = 'strong' if strong else 'weak'
+                var_prev = f'{var}_{kind}_prev{previous}'
+                init, trans = _make_tester_for_previous(
+                    var_prev, var, context, strong)
             testers[var_prev] = dict(
                 type='bool',  # previous applies only to bool vars
                 init=init, trans=trans, win=None)
